@@ -240,6 +240,14 @@ func runTriple(t *rapid.T, e serverEntry, tr triple) string {
 		modelOpts = append(modelOpts, resource.WithClock(jc))
 		clockDesc = fmt.Sprintf("clock stepping by %v", jc.Offsets)
 	}
+	// keyed resources: the model may be configured to treat ids case-insensitively (an id interceptor); clients then
+	// name the item in whatever case they like, in every RPC
+	_, keyedTriple := keyAdapters[string(tr.svc.FullName())]
+	keyedTriple = keyedTriple && len(tr.keyed) > 0
+	foldIDs := keyedTriple && e.TakesOptions && rapid.IntRange(0, 2).Draw(t, "caseInsensitiveIds") == 1
+	if foldIDs {
+		modelOpts = append(modelOpts, resource.WithIDInterceptor(strings.ToLower))
+	}
 	srv := e.NewServer(modelOpts...)
 	r := e.NewRouter()
 	r.(router.Router).Add(deviceName, e.Wrap(srv))
@@ -247,6 +255,10 @@ func runTriple(t *rapid.T, e serverEntry, tr triple) string {
 	var keyReq, keyRes, keyVal string
 	if ad, ok := keyAdapters[string(tr.svc.FullName())]; ok && len(tr.keyed) > 0 {
 		keyReq, keyRes, keyVal = ad.reqField, ad.resField, ad.create(srv)
+		if foldIDs {
+			keyVal = strings.ToUpper(keyVal)
+			lib.Ev.Class("keyed resource with an id interceptor, item named in another case")
+		}
 	}
 	ctx, cancelAll := context.WithCancel(context.Background())
 	defer cancelAll()
